@@ -248,6 +248,7 @@ class C03(Check):
         cs.append({"kind": "pairs"})
         for i in range(0, len(self.hostile), 16):
             cs.append({"kind": "socket", "lo": i, "hi": min(i + 16, len(self.hostile))})
+        cs.append({"kind": "hangups"})
         return cs
 
     # ------------------------------------------------------------------
@@ -327,8 +328,44 @@ class C03(Check):
             for label, line in self.hostile[case["lo"]:case["hi"]]:
                 self.socket_line(label, line, stats, vs)
         elif k == "one-socket":
-            self.socket_line(case["label"], dict(self.hostile)[case["label"]], stats, vs)
+            if case.get("hangup") is not None:
+                self.socket_hangup(case["label"], dict(self.hostile)[case["label"]], case["hangup"], stats, vs)
+            else:
+                self.socket_line(case["label"], dict(self.hostile)[case["label"]], stats, vs)
+        elif k == "hangups":
+            N = {l: ln for l, ln in self.hostile}
+            for label in ("empty", "utf8-bad-start", "not-json", "cmd-list", "input--1", "tx-empty-script",
+                          "adv-block-not-rlp", "unlisted-path-pubkey", "ud-blanks", "witness-252",
+                          "adv-2-brothers", "receipt-256"):
+                if label in N:
+                    for hang in ("before-send", "mid-line", "after-line"):
+                        self.socket_hangup(label, N[label], hang, stats, vs)
         return vs
+
+    def socket_hangup(self, label, line, hang, stats, vs):
+        """a client that goes away (before sending, in the middle of its line, or without waiting
+        for the reply); the manager must go on serving the next connection"""
+        from .. import vserver, vnet
+        stats.evaluations += 1
+        dev, w, proto = self.fresh(False, False)
+        follow = b'{"command": "version"}\n'
+        full = line + b"\n"
+        if hang == "before-send":
+            frags = [vnet.HANGUP]
+        elif hang == "mid-line":
+            frags = [full[:max(1, len(full) // 2)], vnet.HANGUP]
+        else:
+            frags = [full, vnet.HANGUP]
+        net, info, crashed = vserver.run_server(proto, w, [frags, [follow]], None)
+        second = net.clients[1].conn.out if net.clients[1].conn is not None else None
+        stats.observe(("hangup", hang, label.split("-")[0], info["early_shutdown"], second is not None))
+        if (net.sched.deadlock or net.sched.livelock or crashed or net.sched.errors
+                or info["early_shutdown"] or second != b'{"errorcode": 0, "version": 5}\n'):
+            vs.append(Violation("C03", "C03:socket-client-hangup-%s" % hang,
+                                {"kind": "one-socket", "label": label, "hangup": hang}, None,
+                                {"deadlock": net.sched.deadlock, "crashed": crashed, "errors": net.sched.errors[:2],
+                                 "early_shutdown": info["early_shutdown"], "second_reply": second},
+                                "the next connection is served", "socket"))
 
     def socket_line(self, label, line, stats, vs):
         """the same line through the unmodified socketserver stack on the virtual network,
@@ -371,6 +408,8 @@ class C03(Check):
             for val in (None, True, 0, -1.5, "", "sign", [], [{"command": "version"}]):
                 docs.append((val, False))
                 docs.append((val, True))
+            return
+        if sub["kind"] != "combo":
             return
         name = sub["t"]
         t, v1 = c.templates[name]
